@@ -9,6 +9,7 @@ import (
 	"fmt"
 	"runtime"
 	"strings"
+	"sync"
 	"sync/atomic"
 	"time"
 
@@ -17,7 +18,7 @@ import (
 
 // an overlap schedule: spawn thread i with a revision, advance thread i by one engine call, or read
 type ostep struct {
-	kind  string // spawn | step | finish | read | hold
+	kind  string // spawn | step | finish | read | hold | rspawn | rstep | update
 	id    int
 	other int // hold: the thread that runs while thread id is parked inside its batch, right before the engine Commit
 	rel   relRev
@@ -67,11 +68,28 @@ func runOverlap(id int, seed uint64, engine string, skipped []string, scratch st
 	defer closer()
 	s := lib.NewSched()
 	var armInner int32 // 1: the next engine Commit parks its thread (conditions staged, nothing applied yet)
+	// range reads on their own logical threads: parked before the read of the compaction record (the check) and again
+	// before GetPartitions, i.e. after the check and before any iterator is opened (the scan)
+	var rmu sync.Mutex
+	readerGo := map[int64]bool{}
+	isReader := func() bool {
+		rmu.Lock()
+		defer rmu.Unlock()
+		return len(readerGo) > 0 && readerGo[lib.GoID()]
+	}
 	kv := &lib.Wrap{KvStorage: inner, Before: func(kind string, key []byte) error {
 		if kind == "get" || kind == "batch" {
 			if ph := phaseOf(kind); ph != "" {
-				s.Yield(ph)
+				if isReader() {
+					if kind == "get" {
+						s.Yield("PhReadCheck")
+					}
+				} else {
+					s.Yield(ph)
+				}
 			}
+		} else if kind == "parts" && isReader() {
+			s.Yield("PhReadScan")
 		}
 		return nil
 	}, CommitFault: func() (error, bool) {
@@ -248,6 +266,104 @@ func runOverlap(id int, seed uint64, engine string, skipped []string, scratch st
 		}
 		return true
 	}
+	// ---- read threads ----
+	type rthread struct {
+		t     *lib.Thread
+		rev   uint64
+		limit int64
+		phase string
+		isErr bool
+		keys  []string
+		ref   []string // what a List at the same revision returned while the thread was parked after its check
+		done  bool
+	}
+	rthreads := map[int]*rthread{}
+	listKeys := func(rev uint64, limit int64) ([]string, bool) {
+		kvs, _, isErr := be.List([]byte(prefix+"/"), []byte(prefix+"0"), rev, limit)
+		var ks []string
+		for _, e := range kvs {
+			ks = append(ks, fmt.Sprintf("%s@%d", e.K, e.Rev))
+		}
+		return ks, isErr
+	}
+	radvance := func(i int, label string, j map[string]interface{}) bool {
+		rt := rthreads[i]
+		p, done := s.Step(rt.t, 10*time.Second)
+		if p == "<blocked>" {
+			res.fail = &lib.ImplFailure{CaseID: id, What: fmt.Sprintf("read thread %d blocked at %s", i, rt.phase), Case: js}
+			return false
+		}
+		if done {
+			rt.done = true
+			if rt.isErr {
+				sawErr = true
+			} else {
+				sawData = true
+			}
+			outc["rthread-"+rt.phase+"-"+rresCoq(rt.isErr)] = true
+			j["finished"] = map[string]interface{}{"err": rt.isErr, "keys": rt.keys}
+			if rt.ref != nil && !rt.isErr {
+				j["same_revision_read_before"] = rt.ref
+				if fmt.Sprint(rt.ref) != fmt.Sprint(rt.keys) {
+					j["differs_from_the_read_before"] = true
+					outc["rthread-served-different-data"] = true
+				}
+			}
+			record(label, lib.App("ORead", rresCoq(rt.isErr)), j)
+			return true
+		}
+		rt.phase = p
+		if p == "PhReadScan" { // the state at its revision, as any other reader sees it now
+			rt.ref, _ = listKeys(rt.rev, rt.limit)
+		}
+		record(label, "OWrite", j)
+		return true
+	}
+	rspawn := func(i int, rev uint64, limit int64) bool {
+		rt := &rthread{rev: rev, limit: limit, phase: "start"}
+		rthreads[i] = rt
+		rt.t = s.GoWith(fmt.Sprintf("read-%d", i), func(goid int64) {
+			rmu.Lock()
+			readerGo[goid] = true
+			rmu.Unlock()
+		}, func() {
+			rt.keys, rt.isErr = listKeys(rev, limit)
+		})
+		return radvance(i, lib.App("CRSpawn", lib.N(uint64(i)), lib.N(rev)), map[string]interface{}{"op": "spawn read thread", "thread": i, "rev": rev, "limit": limit})
+	}
+	rstep := func(i int) bool {
+		rt := rthreads[i]
+		if rt == nil || rt.done {
+			return true
+		}
+		if len(alive()) > 0 {
+			interleaved = true
+		}
+		con := map[string]string{"PhReadCheck": "CReadCheck", "PhReadScan": "CReadScan"}[rt.phase]
+		if con == "" {
+			res.fail = &lib.ImplFailure{CaseID: id, What: fmt.Sprintf("read thread %d parked at %q", i, rt.phase), Case: js}
+			return false
+		}
+		what := map[string]string{"PhReadCheck": "reads the compaction record (check)", "PhReadScan": "asks for the partitions, scans and answers"}[rt.phase]
+		return radvance(i, lib.App(con, lib.N(uint64(i)), lib.N(rt.rev)), map[string]interface{}{"op": "read thread " + what, "thread": i, "rev": rt.rev})
+	}
+	nupd := 0
+	update := func(n int) bool {
+		for k := 0; k < n; k++ {
+			key := []byte(fmt.Sprintf("/registry/pods/k%d", (nupd+k)%12))
+			w := lib.CsWrite{Op: "update", Key: key, Val: []byte("u")}
+			if kvr, ok, _ := be.Get(key, 0); ok {
+				w.Rev = kvr.Rev
+			}
+			if cl, _, synced := be.Do(w); cl != "ok" || !synced {
+				res.fail = &lib.ImplFailure{CaseID: id, What: "update of " + string(key) + ": " + cl, Case: js}
+				return false
+			}
+		}
+		nupd += n
+		record(lib.App("CWrite", lib.N(uint64(n))), "OWrite", map[string]interface{}{"op": "write", "n": n, "kind": "updates"})
+		return true
+	}
 	read := func(kind string, rev uint64, limit int64) {
 		isErr, op := doRead(be, sc, kind, rev, limit)
 		if isErr {
@@ -283,6 +399,18 @@ func runOverlap(id int, seed uint64, engine string, skipped []string, scratch st
 				}
 			case "hold":
 				if !hold(st.id, st.other) {
+					return
+				}
+			case "rspawn":
+				if !rspawn(st.id, resolve(st.rel, cur, floor, last), st.limit) {
+					return
+				}
+			case "rstep":
+				if !rstep(st.id) {
+					return
+				}
+			case "update":
+				if !update(int(st.limit)) {
 					return
 				}
 			case "read":
@@ -329,6 +457,13 @@ func runOverlap(id int, seed uint64, engine string, skipped []string, scratch st
 		}
 	}
 	// let every thread finish, then read around the floor
+	for i := range rthreads {
+		for !rthreads[i].done {
+			if !rstep(i) {
+				return
+			}
+		}
+	}
 	for _, i := range alive() {
 		for !threads[i].done {
 			if !stepThread(i) {
@@ -389,5 +524,25 @@ func overlapCorpus() [][]ostep {
 		{{kind: "spawn", id: 1, rel: abs(103)}, {kind: "step", id: 1}, {kind: "step", id: 1}, {kind: "step", id: 1},
 			{kind: "spawn", id: 2, rel: abs(111)}, {kind: "hold", id: 1, other: 2}, {kind: "read", rkind: "list", rel: abs(105)},
 			{kind: "finish", id: 2}, {kind: "finish", id: 1}, {kind: "read", rkind: "list", rel: abs(105)}},
+	}
+}
+
+// a range read overlapping a compaction above its revision: the read passes its check of the compaction record, the
+// compaction (of keys rewritten in between) runs to completion, then the read opens its iterators
+func readRaceCorpus() [][]ostep {
+	abs := func(k uint64) relRev { return relRev{mode: "abs", k: k} }
+	return [][]ostep{
+		// the reported interleaving: read at 112 checked; four keys rewritten (113..116); Compact(116) completes; the read scans
+		{{kind: "rspawn", id: 5, rel: abs(112)}, {kind: "rstep", id: 5}, {kind: "update", limit: 4}, {kind: "spawn", id: 1, rel: abs(116)},
+			{kind: "finish", id: 1}, {kind: "rstep", id: 5}, {kind: "read", rkind: "list", rel: abs(112)}, {kind: "read", rkind: "list", rel: abs(116)}},
+		// the compaction completes before the check: refused at the check
+		{{kind: "rspawn", id: 5, rel: abs(112)}, {kind: "update", limit: 4}, {kind: "spawn", id: 1, rel: abs(116)}, {kind: "finish", id: 1},
+			{kind: "rstep", id: 5}, {kind: "read", rkind: "list", rel: abs(116)}},
+		// the compaction is below the read's revision: served, nothing the read needs is deleted
+		{{kind: "update", limit: 4}, {kind: "rspawn", id: 5, rel: abs(116)}, {kind: "rstep", id: 5}, {kind: "update", limit: 2}, {kind: "spawn", id: 1, rel: abs(114)},
+			{kind: "finish", id: 1}, {kind: "rstep", id: 5}, {kind: "read", rkind: "list", rel: abs(113)}},
+		// a limited read, the record written while the compaction is still scanning (floor raised, scan not yet done)
+		{{kind: "rspawn", id: 5, rel: abs(112), limit: 5}, {kind: "rstep", id: 5}, {kind: "update", limit: 6}, {kind: "spawn", id: 1, rel: abs(118)},
+			{kind: "step", id: 1}, {kind: "step", id: 1}, {kind: "rstep", id: 5}, {kind: "finish", id: 1}, {kind: "read", rkind: "list", rel: abs(112)}},
 	}
 }
